@@ -15,7 +15,7 @@ PROP = {
         "the CRDT side of SetYSON/FromCRDT is not modelled: `rebuild` is a value-level description of their composition, tied by differential replay on literals and on exports of documents built through the json API",
     ],
     "level_text": "Lean theorems over every YSON value (unbounded size/depth, structural induction): under the decidable YsonSafe, Unmarshal(Marshal(v)) = v on the "
-                  "TEXT-level model of the Go code (strconv.Quote and IsPrint, the regexp + ten ReplaceAll passes of preprocessTypeValues, encoding/json into interface{}, "
+                  "TEXT-level model of the Go code (strconv.Quote and IsPrint, the string-literal-aware scanner of preprocessTypeValues with the regexp + ten ReplaceAll passes of preprocessTypeTokens, encoding/json into interface{}, "
                   "parseObject/parseArray/parseTypedValue/...): proved in three layers (pre-pass, JSON reader, tree-level parser), none of them trusted; "
                   "under RebuildSafe, SetYSON->FromCRDT is the identity (value-level model); one kernel-evaluated negation witness per unsafe shape. "
                   "Tied to pkg/document/yson and pkg/document/json by differential replay "
@@ -23,7 +23,7 @@ PROP = {
     "level_note": "Trusted: Lean kernel; the hand-written model agrees with the Go code only as far as the `yson` engine's values exercise it.",
     "technique": "Lean 4 proof (structural induction over YSON values) + differential replay of yson.Marshal/Unmarshal and json.SetYSON/yson.FromCRDT",
     "partial": [
-        "Unmarshal(Marshal(v)) = v is false of the pinned code: proved under YsonSafe, 8 unsafe shapes listed as known findings with witnesses",
+        "Unmarshal(Marshal(v)) = v is false of the code: proved under YsonSafe; 6 unsafe shapes remain listed as known findings with witnesses (long precision, type member, Go-only escapes, unescaped keys, non-finite doubles, date range); text inside string literals and the empty dedup counter were repaired by /repo 0cf3884e and are now inside the theorem (their old failure is kept as a witness about the OLD pre-pass, Model/YsonV0.lean)",
         "documents are explored by random multi-replica histories through the json API, not by a CRDT model: that every reachable export is RebuildSafe is tested (oracle), not proved",
     ],
     "not_modelled": [
